@@ -32,22 +32,29 @@ GUARDS = [("split", "SplitJoinInverse"), ("bsearch", "BinarySearchLaws"), ("reve
           ("joinmap", "MapLawsAssoc")]
 
 
-def append_lvalue_compiles():
-    """fcppt::array::append/join/push_back with lvalue arrays: array/append.hpp instantiates
-    fcppt::array::size<Array1> with a reference type, which does not compile on the unchanged tree
-    (compile-time restriction, no run-time behaviour to judge).  The lvalue calls are driven only
-    if they compile."""
-    cmd = vlib.base_flags("none") + ["-fsyntax-only", os.path.join(vlib.HARNESS, "c16_probe_append.cpp")]
+def compiles(probe):
+    """Compile-only probes.  fcppt::array::append/join/push_back with lvalue arrays
+    (array/append.hpp instantiates fcppt::array::size<Array1> with a reference type) and
+    fcppt::tuple::concat with lvalue tuples (enable_if on the deduced reference types) do not
+    compile on the unchanged tree: compile-time restrictions, no run-time behaviour to judge.
+    The lvalue calls are driven only if they compile."""
+    cmd = vlib.base_flags("none") + ["-fsyntax-only", os.path.join(vlib.HARNESS, probe)]
     p = subprocess.run(cmd, stdout=subprocess.PIPE, stderr=subprocess.STDOUT, text=True, errors="replace")
     return p.returncode == 0
 
 
 def build(ctx):
-    lv = append_lvalue_compiles()
-    ctx.extra["array_append_accepts_lvalues"] = lv
-    if not lv:
-        vlib.log("INFO: fcppt::array::append/join/push_back do not compile with lvalue arrays (driven with rvalues only)")
-    return vlib.build_harness("c16_algo", SOURCES, libs=(), defs=("C16_APPEND_LVALUE",) if lv else ())
+    defs = []
+    for key, probe, macro, what in (
+            ("array_append_accepts_lvalues", "c16_probe_append.cpp", "C16_APPEND_LVALUE", "fcppt::array::append/join/push_back"),
+            ("tuple_concat_accepts_lvalues", "c16_probe_concat.cpp", "C16_CONCAT_LVALUE", "fcppt::tuple::concat")):
+        ok = compiles(probe)
+        ctx.extra[key] = ok
+        if ok:
+            defs.append(macro)
+        else:
+            vlib.log("INFO: %s does not compile with lvalue arguments (driven with rvalues only)" % what)
+    return vlib.build_harness("c16_algo", SOURCES, libs=(), defs=tuple(defs))
 
 
 def model_checks(ctx):
@@ -90,6 +97,40 @@ def class_of(e):
     r = e.get("r", e.get("st"))
     shape = "-" if r is None else ("empty" if r in ([], False) else "nonempty")
     return (e["f"], e.get("src", e.get("kind", "")), e.get("tgt", e.get("cat", "")), n, early, shape)
+
+
+OBSERVED = ("r", "st", "log", "elem", "inserted", "calls", "after")
+
+
+def corrupted(x):
+    """a value that differs from x in one scalar leaf (same shape); None if x has no leaf"""
+    if isinstance(x, bool):
+        return not x
+    if isinstance(x, int):
+        return x + 1
+    if isinstance(x, list):
+        for i, y in enumerate(x):
+            c = corrupted(y)
+            if c is not None:
+                return x[:i] + [c] + x[i + 1:]
+    return None
+
+
+def judge_guard(ctx, module, cfg, chosen):
+    """Binding demonstration built into every run: for every (function, observed field) one really
+    recorded record with that field corrupted in one scalar; TLC must reject every one of them with
+    the reason wrong-<field>.  Otherwise the judge is vacuous -> infrastructure failure."""
+    keys = sorted(chosen)
+    path = os.path.join(ctx.workdir, "corrupted_%s.ndjson" % ("replay" if ctx.is_replay else ctx.tier))
+    vlib.write_ndjson(path, [chosen[k] for k in keys])
+    bad = {b["l"]: b for b in vlib.judge_trace(ctx, module, cfg, path, boundary_key=None, nchunks=1)}
+    for i, k in enumerate(keys):
+        b = bad.get(i + 1)
+        if b is None or ("wrong-" + k[1]) not in b["why"]:
+            raise vlib.Infra("judge vacuity guard: corrupted %s of a %s record was not rejected: %s" % (
+                k[1], k[0], json.dumps(chosen[k])[:300]))
+    ctx.extra["judge_guard_corrupted_records_rejected"] = len(keys)
+    os.unlink(path)
 
 
 def judge_parts(ctx, results):
@@ -143,11 +184,21 @@ def judge_parts(ctx, results):
             raise vlib.Infra("harness record outside the spec's preconditions at line %d of %s: %s" % (b["l"], path, line[:300]))
         ctx.reject(signature(b), "spec cannot explain %s (%s); record: %s" % (b["op"], ",".join(b["why"]), line[:500]),
                    {"part": part_of(b["l"]), "record": json.loads(line)})
+    chosen = {}
     for l in all_lines:
-        ctx.count_class(class_of(json.loads(l)))
-    for first, part in spans:
-        if first + 7 < len(all_lines):
-            ctx.sample(json.loads(all_lines[first + 7]), cap=8)
+        e = json.loads(l)
+        ctx.count_class(class_of(e))
+        for fld in OBSERVED:
+            if fld in e and (e["f"], fld) not in chosen:
+                c = corrupted(e[fld])
+                if c is not None:
+                    chosen[(e["f"], fld)] = dict(e, **{fld: c})
+    if not bad:
+        judge_guard(ctx, "AlgorithmsJudge", "AlgorithmsJudge.cfg", chosen)
+    ends = [f for f, _ in spans[1:]] + [len(all_lines)]
+    for (first, part), end in zip(spans, ends):
+        if end > first:
+            ctx.sample(json.loads(all_lines[first + (end - first) * 2 // 3]), cap=8)
     if not ctx.violations:
         os.unlink(path)
 
@@ -181,7 +232,7 @@ def run(ctx):
         "std::unique's predicate must be an equivalence relation: only the 5 equivalence relations on {0,1,2} are driven",
         "binary_search / equal_range are driven on sorted inputs only (precondition of std::equal_range)",
         "call order of std-delegated algorithms (remove_if, find_if_opt) is the in-order one of the obvious loop, which libstdc++ implements",
-        "fcppt::array::append/join/push_back and fcppt::tuple::concat are driven with the value categories that compile (see array_append_accepts_lvalues)",
+        "fcppt::array::append/join/push_back and fcppt::tuple::concat are driven with the value categories that compile (see array_append_accepts_lvalues / tuple_concat_accepts_lvalues in the evidence)",
     ]
 
 
